@@ -2,6 +2,7 @@ import WebpVerif.Lemmas.EncHuff
 import WebpVerif.Lemmas.EncHuffCodes
 import WebpVerif.Lemmas.EncHuffTree
 import WebpVerif.Lemmas.EncHuffLimit
+import WebpVerif.Lemmas.CodeBits
 
 /-!
 # C14 — encoder prefix codes are complete, length-limited and canonical for any histogram
@@ -66,6 +67,49 @@ theorem codes_canonical (lengths : Array Nat) (limit : Nat) (hlim : limit ≤ 16
       some (assignCodes lengths limit).1[j]! =
         (Prefix.canonicalCode lengths.toList j).map (fun c => Prefix.reverseBits c lengths[j]!) :=
   assign_canonical lengths limit hlim hall hk
+
+/-- **The code words are a prefix code a decoder reads back**: for lengths within the limit
+    whose Kraft sum does not exceed the code space, the code word handed out for ANY used symbol
+    `j`, taken in the order its bits enter the stream (LSB first) and followed by ANY
+    continuation, is decoded by the specification's bit-by-bit canonical decoder to exactly `j`,
+    consuming exactly that code word.  Rests on: canonical code words are prefix-free
+    (`Prefix.prefix_free`: a symbol earlier in (length, index) order owns the code space strictly
+    below the later one), and the bit-reversed word LSB first is the canonical word MSB first. -/
+theorem codes_decodable (lengths : Array Nat) (limit : Nat) (hlim : limit ≤ 15)
+    (hall : ∀ l ∈ lengths.toList, l ≤ limit) (hk : Prefix.kraft lengths.toList limit ≤ 2 ^ limit) :
+    ∀ j, j < lengths.size → lengths[j]! ≠ 0 → ∀ rest : List Nat,
+      Prefix.decodeSym lengths.toList 15 0 0
+        (Prefix.lsbBits (assignCodes lengths limit).1[j]! lengths[j]! ++ rest) = some (j, rest) := by
+  intro j hj hne rest
+  have hcan := codes_canonical lengths limit (by omega) hall hk j hj hne
+  have hget : lengths.toList[j]? = some lengths[j]! := by
+    rw [Array.getElem!_eq_getD, Array.getD_eq_getD_getElem?, Array.getElem?_eq_getElem hj]
+    simp [hj]
+  have hgd : lengths.toList.getD j 0 = lengths[j]! := by rw [List.getD_eq_getElem?_getD, hget]; rfl
+  have hle : lengths[j]! ≤ limit := by
+    apply hall
+    rw [Array.getElem!_eq_getD, Array.getD_eq_getD_getElem?, Array.getElem?_eq_getElem hj]
+    simp
+  have hk' : kraftUpTo lengths limit ≤ 2 ^ limit := by rw [kraftUpTo_kk, ← kraft_kk _ _ hall]; exact hk
+  have hlt := code_lt lengths limit lengths[j]! j hk' (by omega) hle hj rfl
+  -- the canonical code word of j
+  have hc : Prefix.canonicalCode lengths.toList j =
+      some (nc lengths lengths[j]! + cnt lengths lengths[j]! j) := by
+    unfold Prefix.canonicalCode
+    rw [hget]
+    obtain ⟨m, hm⟩ : ∃ m, lengths[j]! = m + 1 := ⟨lengths[j]! - 1, by omega⟩
+    simp only [hm]
+    rw [← hm, ← nc_nextCode, ← cnt_take lengths _ j (by omega)]
+  rw [hc, Option.map_some] at hcan
+  have hcode : (assignCodes lengths limit).1[j]! =
+      Prefix.reverseBits (nc lengths lengths[j]! + cnt lengths lengths[j]! j) lengths[j]! := (Option.some.inj hcan)
+  rw [hcode, Prefix.lsb_reverse_eq_msb]
+  have hfin := Prefix.decodeSym_canonical lengths.toList j _ 15 hc (by rw [hgd]; exact hlt) (by rw [hgd]; omega) rest
+  rw [hgd] at hfin
+  exact hfin
+
+-- non-vacuity: the code of the example below, symbol 3 (length 3, code word 011 reversed = 110b)
+example : Prefix.decodeSym [1, 0, 2, 3, 3] 15 0 0 (Prefix.lsbBits 3 3 ++ [1, 0, 1]) = some (3, [1, 0, 1]) := by decide
 
 /-- **The property for every histogram whose Huffman tree needs no limiting** (the common case:
     depth within the limit): `build_huffman_tree` - std's heap with whatever tie-breaking, the
